@@ -28,6 +28,7 @@ EXE = "oracle-c17"
 GEN = os.path.join(vlib.LEAN, "BMV", "Gen", "GoStmts.lean")
 KINDS = ["proc", "disp", "emu", "req", "pool"]
 SIM_MODES = ("seq", "seqerr", "par", "fit", "raw")
+POOL_DRIVER = os.path.join(vlib.HARNESS, "cmd", "c17", "simfinetune_driver_test.go.txt")
 CALIBRATION = ("reqhold", "reqrelease")   # the harness itself keeps servers open, then closes them
 
 # known findings this check can recognise (listed in /verif/known_findings.json by the integrator)
@@ -77,6 +78,8 @@ def parse(impl_text, model_text):
 
 def spec_of(b):
     d = b["b"]
+    if d["mode"] == "pool":
+        return "pool,%s:%s:%s:%s" % (d["W"], d["n"], d["P"], d["R"])
     mach = d.get("mach", "-")
     if d["mode"] not in SIM_MODES:
         mach = "-"
@@ -101,8 +104,9 @@ def judge(cfg, b, listed):
         return ("calibration" if tie_ok else "tie"), ""
     leaked = {k: v for k, v in g.items() if v > 0}
     if leaked:
-        what = "%s n=%s P=%s leaves %s goroutines behind (%s)" % (
-            mode, n, P, sum(leaked.values()), ", ".join("%s:+%d" % kv for kv in sorted(leaked.items())))
+        what = "%s n=%s P=%s%s leaves %s goroutines behind (%s)" % (
+            mode, n, P, (" Workers=%s" % d["W"]) if mode == "pool" else "", sum(leaked.values()),
+            ", ".join("%s:+%d" % kv for kv in sorted(leaked.items())))
         if (mode in SIM_MODES and set(leaked) <= {"proc", "disp"} and g["proc"] == n * P and g["disp"] == n
                 and cfg.get("proc") == "0" and cfg.get("disp") == "0" and KF_SIM in listed):
             return "known:" + KF_SIM, what
@@ -127,6 +131,53 @@ def run_harness(hbin, args, timeout):
         if rc2 != 0:
             raise RuntimeError("oracle failed rc=%s: %s" % (rc2, err2[-2000:]))
     return impl, model
+
+
+def build_pool_driver():
+    """cmd/simfinetune is package main: compile our driver into it as a test file through a build overlay
+    (nothing is written into the repository); returns the test binary"""
+    os.makedirs(vlib.BIN, exist_ok=True)
+    out = os.path.join(vlib.BIN, "simfinetune-c17.test")
+    ov = os.path.join(vlib.BIN, "simfinetune-c17.overlay.json")
+    json.dump({"Replace": {os.path.join(vlib.REPO, "cmd", "simfinetune", "zz_verif_c17_test.go"): POOL_DRIVER}},
+              open(ov, "w"))
+    with vlib.Lock("go"):
+        if os.path.exists(out):
+            os.remove(out)
+        rc, so, se = vlib.run(["go", "test", "-c", "-vet=off", "-tags", "verif", "-overlay", ov, "-o", out,
+                               "./cmd/simfinetune"], cwd=vlib.REPO, env=vlib.goenv(), timeout=900)
+    if rc != 0 or not os.path.exists(out):
+        raise vlib.BuildError("go test -c of cmd/simfinetune with the C17 driver failed:\n%s%s" % (so, se))
+    return out
+
+
+def run_pool(pbin, spec, timeout=600):
+    """spec: W:n:P:R,...  -> (impl text, model text)"""
+    env = vlib.goenv()
+    env["VERIF_C17_POOL"] = spec
+    rc, so, se = vlib.run([pbin, "-test.run", "TestVerifC17Pool", "-test.timeout", "%ds" % timeout],
+                          timeout=timeout + 30, env=env, cwd=vlib.scratch_dir("c17" + vlib._REPO_TAG))
+    impl = "".join(l + "\n" for l in so.splitlines() if l.startswith(("B ", "M ")))
+    if not impl:
+        raise RuntimeError("simfinetune driver printed nothing rc=%s: %s" % (rc, (so + se)[-2000:]))
+    model = ""
+    if os.path.exists(_oracle()):
+        rc2, model, err2 = vlib.run([_oracle()], input_bytes=impl.encode(), timeout=300)
+        if rc2 != 0:
+            raise RuntimeError("oracle failed rc=%s: %s" % (rc2, err2[-2000:]))
+    return impl, model
+
+
+def pool_spec(seed, thorough):
+    """worker counts 4, 1, 0 and a negative one; 1 and 10 (thorough: 100) evaluations"""
+    import random
+    r = random.Random(seed * 7919 + 17)
+    ns = [1, 10, 100] if thorough else [1, 10]
+    out = []
+    for W in (4, 1, 0, -r.randint(1, 5)):
+        for n in ns:
+            out.append("%d:%d:%d:%d" % (W, n, r.randint(1, 3), r.randint(1, 4)))
+    return ",".join(out)
 
 
 def regenerate(hbin):
@@ -157,8 +208,22 @@ def shrink(hbin, b, cfg, listed):
     d = b["b"]
     mode = d["mode"]
     cands = []
+    if mode == "pool":
+        try:
+            impl, model = run_pool(build_pool_driver(), "%s:1:1:1" % d["W"])
+            _, bs, _ = parse(impl, model)
+            if bs and bs[0]["obs"] is not None and judge(cfg, bs[0], listed)[0] == "leak":
+                return bs[0], spec_of(bs[0]), judge(cfg, bs[0], listed)[1]
+        except (RuntimeError, vlib.BuildError):
+            pass
+        return b, spec_of(b), judge(cfg, b, listed)[1]
     if mode in SIM_MODES:
-        cands.append("%s,1,1,chain:P1:r8:incs.0" % mode)
+        if ":fail" not in d.get("mach", ""):
+            cands.append("%s,1,1,chain:P1:r8:incs.0" % mode)
+        else:
+            # which workers are stranded depends on the order in which they report: several failing
+            # processors and the batch's own n keep the reproduction likely
+            cands.append("%s,%s,%s,chain:P1:r8:incs.0:fail3" % (mode, d["n"], max(1, int(d.get("k", "1")))))
         cands.append("%s,1,1,%s" % (mode, d.get("mach", "-")))
     else:
         cands.append("%s,1,1,-" % mode)
@@ -215,6 +280,12 @@ def run(rep):
     cfg = c or cfg
     batches += bs
     errors += es
+    # cmd/simfinetune's worker pool (FitnessFunction), worker counts 4 / 1 / 0 / negative
+    pbin = build_pool_driver()
+    impl, model = run_pool(pbin, pool_spec(rep.seed, thorough), 1200 if thorough else 300)
+    c, bs, es = parse(impl, model)
+    batches += bs
+    errors += es
 
     stats = {"batches": 0, "calls": 0, "by_mode": {}, "goroutines_left": 0, "known": 0}
     distinct = set()
@@ -226,7 +297,7 @@ def run(rep):
             continue
         d = b["b"]
         stats["batches"] += 1
-        stats["calls"] += int(d["n"])
+        stats["calls"] += int(d["n"]) * (int(d["R"]) if d["mode"] == "pool" else 1)
         stats["by_mode"][d["mode"]] = stats["by_mode"].get(d["mode"], 0) + 1
         if int(d["n"]) > 0 or d["mode"] in CALIBRATION:
             distinct.add((d["mode"], d["n"], d.get("k"), d.get("mach")))
@@ -252,7 +323,9 @@ def run(rep):
         "distinct_nontrivial": len(distinct),
         "rule": "seeded batches (VERIF_SEED) of n in {1,10,100[,1000]} sequential and concurrent "
                 "SinglePipelineSimulate calls, Fitness_default, raw VM launch/step/shutdown, bmreqs and basm "
-                "instances on generated chain machines (1..4 processors, 8/16/32 bit); evaluations = calls; "
+                "instances on generated chain machines (1..4 processors, 8/16/32 bit), the same on machines with "
+                "1..3 extra processors whose every step fails (addf16 at 8/32 bit), and cmd/simfinetune's "
+                "FitnessFunction worker pool with Workers in {4, 1, 0, negative}; evaluations = simulation calls; "
                 "non-trivial = a batch that started at least one worker; distinct = distinct (mode, n, k, machine)",
         "samples": samples or [{"note": "no batch ran"}],
         "traces_validated_against_impl": sum(1 for b in batches if b["obs"] is not None and b["model"] is not None),
@@ -270,7 +343,7 @@ def run(rep):
 
     if leaks:
         # the property's own quantifier (simulation calls) first, then the smallest batch
-        leaks.sort(key=lambda x: (x[0]["b"]["mode"] not in SIM_MODES, int(x[0]["b"]["n"]), int(x[0]["b"]["P"])))
+        leaks.sort(key=lambda x: (x[0]["b"]["mode"] not in SIM_MODES + ("pool",), int(x[0]["b"]["n"]), int(x[0]["b"]["P"])))
         b, spec, what = shrink(hbin, leaks[0][0], cfg, listed)
         rep.violation({"property": PROP, "kind": "goroutines-left-behind", "what": what,
                        "replay_spec": spec, "batch": b["line"],
@@ -305,9 +378,18 @@ def replay(rep, path):
         d = kvs(line) if line else {}
         spec = "%s,%s,%s,%s" % (d.get("mode", "seq"), d.get("n", "1"), max(1, int(d.get("k", "1") or 1)),
                                 d.get("mach", "chain:P1:r8:incs.0"))
-    impl, model = run_harness(hbin, ["replay", spec], 900)
-    cfg, bs, es = parse(impl, model)
     listed = {f.get("id") for f in vlib.load_known_findings(PROP)}
+    pbin = build_pool_driver() if spec.startswith("pool,") else None
+    # a leak that depends on the order in which the workers report may need a few attempts
+    attempts = 8 if obj.get("kind") == "goroutines-left-behind" else 1
+    for _ in range(attempts):
+        if pbin:
+            impl, model = run_pool(pbin, spec[5:], 900)
+        else:
+            impl, model = run_harness(hbin, ["replay", spec], 900)
+        cfg, bs, es = parse(impl, model)
+        if any(b["obs"] is not None and judge(cfg, b, listed)[0] == "leak" for b in bs):
+            break
     rep.coverage.update({"evaluations": sum(int(b["b"]["n"]) for b in bs), "distinct_nontrivial": max(2, len(bs)),
                          "rule": "replay of " + path, "samples": [b["line"] for b in bs] or [spec]})
     for b in bs:
